@@ -59,6 +59,25 @@ def promote(v, wk, rk):
     return v
 
 
+def static_match(w, r, wn, rn):
+    """do two schemas match as the item/value types of arrays/maps must (decided on the schemas alone; a union on
+    either side defers the decision to the data)"""
+    w, r = deref(w, wn), deref(r, rn)
+    if w["k"] == "union" or r["k"] == "union":
+        return True
+    if w["k"] != r["k"]:
+        return r["k"] in PROMOTE.get(w["k"], ())
+    if w["k"] in ("record", "enum"):
+        return names_match(w, r)
+    if w["k"] == "fixed":
+        return names_match(w, r) and w["size"] == r["size"]
+    if w["k"] == "array":
+        return static_match(w["items"], r["items"], wn, rn)
+    if w["k"] == "map":
+        return static_match(w["values"], r["values"], wn, rn)
+    return True
+
+
 def pick_reader_branch(w, rbranches, wn, rn):
     for i, b in enumerate(rbranches):
         if same_type(w, b, wn, rn):
@@ -84,6 +103,12 @@ def resolve_decode(w, r, cur, wn, rn):
             raise NoResolution("no reader branch matches")
         return resolve_decode(w, r["branches"][j], cur, wn, rn)
     wk, rk = w["k"], r["k"]
+    if wk == rk == "array" and not static_match(w["items"], r["items"], wn, rn):
+        decode(w, cur, wn)
+        raise NoResolution("array item types do not match")
+    if wk == rk == "map" and not static_match(w["values"], r["values"], wn, rn):
+        decode(w, cur, wn)
+        raise NoResolution("map value types do not match")
     if wk == rk == "array":
         out = []
         while True:
